@@ -6,6 +6,7 @@ CONSTANTS
   SAttrs = {}
   SVals = {}
   SDates = {}
+  ClaimSigners = {}
   DelDates = {}
   DelSigners = {}
   MixDeletes = FALSE
